@@ -27,6 +27,14 @@ func VerifC05_CloneSetFinalizeReleasesWorkload() {
 	} else {
 		release.Spec.ReleasePlan.BatchPartition = nil
 	}
+	// what the BatchRelease recorded when it started (nothing, if it never initialised; another revision, if the
+	// template was changed or reverted since) does not decide whether the workload is given back
+	switch verifrt.IntRange("release.recordedRevision", 0, 2) {
+	case 0:
+		release.Status.UpdateRevision = ""
+	case 1:
+		release.Status.UpdateRevision = "some-other-revision"
+	}
 	err := rc.Finalize(release)
 	verifrt.Assert(err == nil, "C05.cloneset.finalize.noError")
 	ws := cli.Writes("patch", "")
